@@ -67,6 +67,7 @@ func (db *DB) scanIntoStruct(rows Rows, reflectValue reflect.Value, values []int
 	db.RowsAffected++
 	db.AddError(rows.Scan(values...))
 	joinedNestedSchemaMap := make(map[string]interface{})
+	resetJoinedMap := make(map[string]struct{})
 	for idx, field := range fields {
 		if field == nil {
 			continue
@@ -85,8 +86,13 @@ func (db *DB) scanIntoStruct(rows Rows, reflectValue reflect.Value, values []int
 			for _, joinSchema := range nestedJoinSchemas {
 				fullRels = append(fullRels, joinSchema.Name)
 				relValue = joinSchema.ReflectValueOf(db.Statement.Context, currentReflectValue)
+				fullRelsName := utils.JoinNestedRelationNames(fullRels)
+				if _, ok := resetJoinedMap[fullRelsName]; !ok {
+					// first column of this joined relation in this row: drop what a reused destination still holds
+					resetJoinedMap[fullRelsName] = struct{}{}
+					relValue.Set(reflect.Zero(relValue.Type()))
+				}
 				if relValue.Kind() == reflect.Ptr {
-					fullRelsName := utils.JoinNestedRelationNames(fullRels)
 					// same nested structure
 					if _, ok := joinedNestedSchemaMap[fullRelsName]; !ok {
 						if value := reflect.ValueOf(values[idx]).Elem(); value.Kind() == reflect.Ptr && value.IsNil() {
